@@ -254,4 +254,57 @@ theorem rule_instance_case_insensitive (services : List (BList × Service)) (i :
   unfold instanceOf
   rw [h]
 
+/-! ### the SRV target after a host rename (repair of D37) -/
+
+/-- the SRV record of a direct answer (SRV / ANY question on the instance name) names the
+    CURRENT host name of the service - the name as registered resolved through the renames by
+    conflict resolution - and the address records added to an SRV answer are filed under that
+    same name: the name the daemon answers address questions for (`addrRule`).  Before the repair
+    both carried the host name as registered, which the daemon no longer answers for. -/
+theorem rule_srv_target_current (reg : Registry) (i : MyIntf) (v4 : Bool) (qname : BList) (qtype : Nat) (svc : Service) :
+    (∀ a ∈ instRule reg qname qtype (some svc), a.ty = TYPE_SRV → a.rdata = .srv 0 0 svc.port (reg.resolveName svc.host)) ∧
+    (∀ a ∈ instAdditionals reg i v4 qtype (some svc), a.name = reg.resolveName svc.host) ∧
+    (∀ a ∈ addrRule i reg (reg.resolveName svc.host) TYPE_ANY svc, a.name = reg.resolveName svc.host) := by
+  refine ⟨?_, ?_, ?_⟩
+  · intro a ha hty
+    simp only [instRule, List.mem_append] at ha
+    rcases ha with ha | ha
+    · split at ha
+      · simp only [List.mem_cons, List.not_mem_nil, or_false] at ha; subst ha; rfl
+      · simp at ha
+    · split at ha
+      · simp only [List.mem_cons, List.not_mem_nil, or_false] at ha; subst ha; exact absurd hty (by simp [TYPE_TXT, TYPE_SRV])
+      · simp at ha
+  · intro a ha
+    simp only [instAdditionals] at ha
+    split at ha
+    · simp only [List.mem_map] at ha
+      obtain ⟨_, _, rfl⟩ := ha
+      rfl
+    · simp at ha
+  · intro a ha
+    unfold addrRule at ha
+    split at ha
+    · simp at ha
+    · split at ha
+      · simp at ha
+      · simp only [List.mem_map] at ha
+        obtain ⟨_, _, rfl⟩ := ha
+        rfl
+
+/-- the host of `web` was renamed `alpha.local.` -> `alpha-2.local.` by conflict resolution -/
+def renamedHostReg : Registry :=
+  { nameChanges := [(web.host, [0x61,0x6c,0x70,0x68,0x61,0x2d,0x32,0x2e,0x6c,0x6f,0x63,0x61,0x6c,0x2e])] }
+
+/-- REGRESSION (D37, witness corpus/C08/d37_srv_target_after_host_rename.ops): the answer to an
+    SRV question on the instance name has the NEW host name as target and brings the address
+    under the new host name -/
+example :
+    instRule renamedHostReg web.fullname TYPE_SRV (some web) =
+      [{ name := web.fullname, ty := TYPE_SRV, flush := true, ttl := TTL_HOST,
+         rdata := .srv 0 0 80 [0x61,0x6c,0x70,0x68,0x61,0x2d,0x32,0x2e,0x6c,0x6f,0x63,0x61,0x6c,0x2e] }] ∧
+    instAdditionals renamedHostReg eth0 true TYPE_SRV (some web) =
+      [{ name := [0x61,0x6c,0x70,0x68,0x61,0x2d,0x32,0x2e,0x6c,0x6f,0x63,0x61,0x6c,0x2e], ty := TYPE_A, flush := true, ttl := TTL_HOST,
+         rdata := .a [192, 168, 1, 20] }] := by decide
+
 end Mdns.Props.C06
